@@ -275,3 +275,132 @@ func TestFreeV2(t *testing.T) {
 	}
 	t.Logf("FREE runs=%d events=%d distinct_divider_calls=%d", runs, events.n, len(calls))
 }
+
+// TestFreeV2Sat (C05, real clock and real goroutines): every input is a small buffer with hundreds of single-shot writers parked on it
+// BEFORE New (each receive refills the buffer from the next parked writer in the same critical section, so data is waiting
+// continuously), a single dispatcher receives, workers release after random holds.  Items are anonymous: the dispatcher numbers them
+// as they arrive (W is logged right before R).  The saturated phase ends (C records) while every input still has parked writers.
+// Writes freesat_events.ndjson for Mon_Prio (sat = true: per-priority received - release-issued <= share at every R).
+func freeRunV2Sat(t *testing.T, cfg Config, rnd *rand.Rand) []obs {
+	const parked = 400
+	lg := &freeLog{}
+	ins := map[uint]chan int{}
+	inputs := map[uint]<-chan int{}
+	quit := make(chan struct{})
+	var writers sync.WaitGroup
+	for _, p := range cfg.Prios {
+		ch := make(chan int, cfg.incap(p))
+		ins[p] = ch
+		inputs[p] = ch
+		for i := 0; i < parked+cfg.incap(p); i++ {
+			writers.Add(1)
+			go func() {
+				defer writers.Done()
+				select {
+				case ch <- 0:
+				case <-quit:
+				}
+			}()
+		}
+	}
+	time.Sleep(30 * time.Millisecond) // let every writer reach its send
+	d, err := priority.New(priority.Opts[int]{Divider: dividerByName(cfg.Div), HandlersQuantity: cfg.H, Inputs: inputs})
+	if err != nil {
+		t.Fatalf("New(%+v): %v", cfg, err)
+	}
+	var wg sync.WaitGroup
+	work := make(chan uint, 4*cfg.H+8)
+	for i := 0; i < int(2*cfg.H)+1; i++ {
+		wg.Add(1)
+		go func(hold int) {
+			defer wg.Done()
+			for p := range work {
+				switch hold {
+				case 1:
+					runtime.Gosched()
+				case 2:
+					time.Sleep(time.Microsecond)
+				case 3:
+					time.Sleep(30 * time.Microsecond)
+				}
+				lg.add(obs{E: "L", P: p})
+				d.Release(p)
+			}
+		}(rnd.Intn(4))
+	}
+	count := map[uint]int{}
+	saturated := true
+	stuck := false
+recv:
+	for {
+		select {
+		case x, ok := <-d.Output():
+			if !ok {
+				break recv
+			}
+			count[x.Priority]++
+			lg.add(obs{E: "W", C: x.Priority, K: count[x.Priority]})
+			lg.add(obs{E: "R", P: x.Priority, C: x.Priority, K: count[x.Priority]})
+			work <- x.Priority
+			if saturated && count[x.Priority] >= parked/2 { // end of the saturated phase: every input still has parked writers
+				saturated = false
+				for _, p := range cfg.Prios {
+					lg.add(obs{E: "C", C: p})
+				}
+				close(quit)
+				writers.Wait()
+				for _, p := range cfg.Prios {
+					close(ins[p])
+				}
+			}
+		case <-time.After(20 * time.Second):
+			stuck = true
+			break recv
+		}
+	}
+	if stuck {
+		lg.add(obs{E: "Deadline", Note: "free-running saturated: nothing delivered and Output() not closed for 20 s of wall time"})
+		stuckRuns.Add(1)
+		if saturated {
+			close(quit)
+		}
+		return lg.evs
+	}
+	lg.add(obs{E: "OC"})
+	close(work)
+	for err := range d.Err() {
+		lg.add(obs{E: "EV", Note: errNote(err)})
+	}
+	lg.add(obs{E: "EC"})
+	wg.Wait()
+	return lg.evs
+}
+
+func TestFreeV2Sat(t *testing.T) {
+	events := openOut(t, "freesat_events.ndjson")
+	defer events.close()
+	rnd := newRand(23)
+	shapes := []struct {
+		ps  []uint
+		h   uint
+		div string
+		cap int
+	}{{[]uint{3, 2, 1}, 6, "rate", 1}, {[]uint{4, 3, 2, 1}, 15, "rate", 2}, {[]uint{3, 2, 1}, 4, "fair", 1}, {[]uint{2, 1}, 3, "rate", 1},
+		{[]uint{5, 3, 1}, 9, "rate", 3}, {[]uint{3, 2, 1}, 12, "rate", 2}}
+	n := envInt("FREESAT_RUNS", 12)
+	runs := 0
+	for i := 0; i < n && stuckRuns.Load() == 0; i++ {
+		s := shapes[i%len(shapes)]
+		cfg := Config{Prios: s.ps, H: s.h, Div: s.div, InCap: map[string]int{}, Items: map[string]int{}, Saturated: true}
+		for _, p := range s.ps {
+			cfg.InCap[key(p)] = s.cap
+		}
+		evs := freeRunV2Sat(t, cfg, rnd)
+		events.put(resetV2(cfg, i+1, "free-sat", false))
+		for _, o := range evs {
+			events.put(o)
+		}
+		runs++
+	}
+	t.Logf("FREESAT runs=%d events=%d", runs, events.n)
+}
